@@ -321,7 +321,36 @@ def r08_9(ctx):
            'after reset_signals only the soft-timeout signal and SIGINT are bound')
 
 
+def r08_11(ctx):
+    ctx.rule('R08.11', 'a termination signal that arrived while a task was running is honoured even when the task '
+                       'swallowed the SystemExit it raised: before the worker takes another job it looks at the '
+                       'exit-requested flag', floor=1)
+    from .poolfacts import WorkloopAnchors
+    A = WorkloopAnchors(ctx)
+    fi, cfg = A.fi, A.fi.cfg
+    takes = q.nodes_calling(fi, 'self.wait_for_job')
+    q.need(takes, 'Worker.workloop does not call wait_for_job')
+    flag = lambda t: t.replace(' ', '') in (EXIT_FLAG + '[0]', EXIT_FLAG.split('.')[-1] + '[0]') or \
+        t.replace(' ', '').endswith('_should_have_exited[0]')
+    looks = q.outcome_edges(fi, flag, True) | q.outcome_edges(fi, flag, False)
+    tests = {a for (a, b, l) in looks}
+    # the D2 repair tests the flag only inside the except arm (together with isinstance): a look that every path
+    # from the task call to the next job passes is what is asked for
+    starts = []
+    for tn in A.task_nodes:
+        starts += [b for (b, l) in cfg.succ[tn.id]]
+    r = cfg.reach(starts, block_nodes=tests, include_src=True)
+    again = [t for t in takes if t.id in r]
+    ctx.ob('R08.11', 'workloop:exit-flag-looked-at-before-the-next-job', not again, fi, again[0] if again else None,
+           'every path from the task call to the next wait_for_job() tests the exit-requested flag' if not again else
+           'a task that catches BaseException swallows the SystemExit of the termination handler; the worker then '
+           'sends the result and goes on to take further jobs (terminate_job / hard time limit / operator TERM has no '
+           'effect until SIGKILL, which may hit it while it holds the task pipe lock)',
+           path=None if not again else cfg.path(starts, [again[0].id], block_nodes=tests))
+
+
 def run(ctx):
+    r08_11(ctx)
     r08_9(ctx)
     # terminate() ends by joining every worker without a timeout
     from .c19 import untimed_sentinel_wait
@@ -350,6 +379,7 @@ def run(ctx):
 _P ='billiard/pool.py'
 _C = 'billiard/common.py'
 MUTANTS = [
+    ('swallowed-termination-not-honoured', _P, "                    if _should_have_exited[0]:\n                        # the termination-signal handler ran while the task\n                        # was running and the task swallowed the SystemExit:\n                        # honour the signal now, do not take another job.\n                        raise SystemExit()\n", "", 'R08.11'),
     ('handlers-installed-before-the-initializer', _P,
      "        if self.initializer is not None:\n            self.initializer(*self.initargs)\n\n        # Make sure all exiting signals call finally: blocks.\n        # This is important for the semaphore to be released.\n        reset_signals(full=self.sigprotection)\n",
      "        reset_signals(full=self.sigprotection)\n\n        if self.initializer is not None:\n            self.initializer(*self.initargs)\n", 'R08.9'),
